@@ -3,6 +3,7 @@ package checks
 import (
 	"encoding/base64"
 	"fmt"
+	"github.com/cosmos/cosmos-sdk/x/authz"
 	"math"
 	"math/big"
 	"strings"
@@ -497,12 +498,24 @@ func encodeBin(msg sdk.Msg) (s string, ok bool) {
 func (g *advGen) txGen(r *kernel.Run, _ *kernel.Rng) *kernel.Tx {
 	for tries := 0; tries < 5; tries++ {
 		msg, signer, route := g.genMsg(r)
+		note := sdk.MsgTypeURL(msg)
+		if route == "" && g.rng.Intn(8) == 0 {
+			// the same message wrapped in an authz MsgExec signed by the grantee: x/authz hands the inner message to its
+			// handler without ValidateBasic and asks it for its signers first
+			if _, ok := encodeBin(msg); ok {
+				func() {
+					defer func() { _ = recover() }() // a message that cannot be packed is sent as it is
+					exec := authz.NewMsgExec(kernel.ActorAddr(signer), []sdk.Msg{msg})
+					msg, note = &exec, "authz-exec:"+note
+				}()
+			}
+		}
 		bin, ok := encodeBin(msg)
 		if !ok {
 			r.Stats.Inc("probe.unencodable_message_skipped")
 			continue
 		}
-		return &kernel.Tx{Signer: signer, Bin: []string{bin}, Route: route, Note: sdk.MsgTypeURL(msg)}
+		return &kernel.Tx{Signer: signer, Bin: []string{bin}, Route: route, Note: note}
 	}
 	return nil
 }
